@@ -57,7 +57,9 @@ RULE = ('cases: (a) sections of 1..8 entries over {.debug_frame v1/3/4, DWARF32/
         'lists alone; (c) tables alone incl. one probe per opcode x factor signs; (d) truncated/mutated sections '
         '(out of domain, model drift only); (e) ONE DWARFInfo holding both a .debug_frame and an .eh_frame section with '
         'different contents, descriptor names real/None/empty/equal/swapped, histories of 2-3 calls of CFI_entries and '
-        'EH_CFI_entries in both orders. distinct = hash(kind, abstract); non-trivial = a section with >= 2 entries '
+        'EH_CFI_entries in both orders; (f) instruction lists / tables with the optional vendor opcodes 0x1d 0x2c 0x2f, in '
+        'domain iff the live _OPCODE_NAME_MAP names them; every stream handed to the library is of a kind drawn from '
+        'tools/lib/streams.py (bytesio, file, file_warm, file_end, file_small, mmap, gzip, decoy_fd). distinct = hash(kind, abstract); non-trivial = a section with >= 2 entries '
         'or an instruction list with >= 2 instructions')
 
 FORMATS = [0, 1, 2, 3, 4, 9, 10, 11, 12]
@@ -370,6 +372,35 @@ def gen_section(rng, small=False, force=None):
     return [eh, le, asize, addr, entries]
 
 
+OPTIONAL_OPCODES = {'MIPS_advance_loc8': 0x1d, 'AARCH64_negate_ra_state_with_pc': 0x2c,
+                    'GNU_negative_offset_extended': 0x2f}
+
+
+def gen_vendor(rng):
+    """an instruction list with at least one optional vendor opcode, for a target with 4- or 8-byte addresses"""
+    from tools.lib.streams import draw_kind
+    asize = rng.choice([4, 4, 8])
+    t = Track('regoff', True)
+    ins = gen_instrs(rng, asize, t, rng.randrange(0, 5))
+    for _ in range(rng.randrange(1, 4)):
+        op = rng.choice(['MIPS_advance_loc8', 'MIPS_advance_loc8', 'AARCH64_negate_ra_state_with_pc',
+                         'GNU_negative_offset_extended'])
+        if op == 'MIPS_advance_loc8':
+            v = [op, rng.choice([0, 1, 0x100, 2 ** 32 - 1, 2 ** 32, 2 ** 40 + 3, 2 ** 63, 2 ** 64 - 1, rng.getrandbits(64)])]
+        elif op == 'GNU_negative_offset_extended':
+            v = [op, ru(rng), ruo(rng)]
+        else:
+            v = [op]
+        ins.insert(rng.randrange(len(ins) + 1), v)
+    return [rng.random() < 0.6, asize, ins, draw_kind(rng, 0.75)]
+
+
+def _vendor_supported(ins):
+    """does the live module name every optional opcode of the list?"""
+    from elftools.dwarf import callframe
+    return all(OPTIONAL_OPCODES[i[0]] in callframe._OPCODE_NAME_MAP for i in ins if i[0] in OPTIONAL_OPCODES)
+
+
 NAME_PAIRS = [('.debug_frame', '.eh_frame'), ('none', 'none'), ('', ''), ('frames', 'frames'),
               ('.eh_frame', '.debug_frame'), ('none', '.eh_frame'), ('.debug_frame', '.debug_frame'),
               ('.zdebug_frame', '.eh_frame')]
@@ -477,12 +508,27 @@ def gen(ctx):
     rng = ctx.rng
     cases = list(probes())
     n_sec = ctx.scale(700, 12000)
+    from tools.lib.streams import KINDS as STREAM_KINDS, draw_kind
+    # the stream kind the library is handed is a dimension of the correspondence (same bytes on every kind): every
+    # kind is met by both section kinds early in the run, afterwards mostly BytesIO
     for i in range(n_sec):
-        cases.append(('section', gen_section(rng, small=(i % 3 == 0))))
-    for _ in range(ctx.scale(150, 3000)):
+        sec = gen_section(rng, small=(i % 3 == 0), force=((i % 2 == 1, rng.random() < 0.7, rng.choice([4, 8]))
+                                                          if i < 2 * len(STREAM_KINDS) else None))
+        sec.append(STREAM_KINDS[i // 2] if i < 2 * len(STREAM_KINDS) else draw_kind(rng, 0.75))
+        cases.append(('section', sec))
+    for i in range(ctx.scale(150, 3000)):
         asize = rng.choice([4, 8])
         t = Track('regoff', True)
-        cases.append(('instrs', [rng.random() < 0.7, asize, gen_instrs(rng, asize, t, rng.randrange(0, 60))]))
+        cases.append(('instrs', [rng.random() < 0.7, asize, gen_instrs(rng, asize, t, rng.randrange(0, 60)),
+                                 STREAM_KINDS[i] if i < len(STREAM_KINDS) else draw_kind(rng, 0.75)]))
+    # optional vendor opcodes of the registries (MIPS_advance_loc8, AARCH64_negate_ra_state_with_pc,
+    # GNU_negative_offset_extended): in the domain exactly when the live module names them
+    for _ in range(ctx.scale(60, 1200)):
+        cases.append(('vendor-instrs', gen_vendor(rng)))
+    for _ in range(ctx.scale(40, 800)):
+        le, asize, ins, _k = gen_vendor(rng)
+        cases.append(('vendor-table', [rng.choice([1, 2, 4]), rng.choice([-8, -4, 4, 1]),
+                                       [['def_cfa', uleb(7), uleb(8)], ['offset', 5, uleb(2)]], 0x1000, ins]))
     for _ in range(ctx.scale(400, 8000)):
         asize = 8
         t = Track('undef', False)
@@ -497,11 +543,14 @@ def gen(ctx):
             fis = gen_instrs(rng, asize, t2, n_instrs(rng), p_invalid=0.03)
             cases.append(('table', [caf, daf, cis, rng.choice([0, 0x1000, 2 ** 64 - 16, rng.getrandbits(48)]), fis]))
     # the public entry points on one object that holds both sections, under every naming of the descriptors
-    for _ in range(ctx.scale(160, 2500)):
-        cases.append(('dwarfinfo', gen_dwarfinfo(rng)))
+    for i in range(ctx.scale(160, 2500)):
+        d = gen_dwarfinfo(rng)
+        d.append([STREAM_KINDS[i % len(STREAM_KINDS)], STREAM_KINDS[(i // len(STREAM_KINDS)) % len(STREAM_KINDS)]]
+                 if i < 24 else [draw_kind(rng, 0.7), draw_kind(rng, 0.7)])
+        cases.append(('dwarfinfo', d))
     # out of domain: damaged sections (model drift only)
     for _ in range(ctx.scale(150, 3000)):
-        cases.append(('damaged', [gen_section(rng, small=True), rng.choice(['trunc', 'flip', 'flip', 'extend']),
+        cases.append(('damaged', [gen_section(rng, small=True) + [draw_kind(rng, 0.7)], rng.choice(['trunc', 'flip', 'flip', 'extend']),
                                   rng.getrandbits(32)]))
     return cases
 
@@ -594,12 +643,16 @@ def _safe(f, *a):
         sys.setrecursionlimit(old)
 
 
-def impl_section(data, eh, le, asize, addr):
+def _open(S, data, kind):
+    return io.BytesIO(data) if S is None else S.open(data, kind)
+
+
+def impl_section(data, eh, le, asize, addr, S=None, skind='bytesio'):
     """-> (entries result, [table result per entry])"""
     from elftools.dwarf.dwarfinfo import DWARFInfo, DwarfConfig, DebugSectionDescriptor
     # the public entry points: DWARFInfo.CFI_entries() / EH_CFI_entries() on a DWARFInfo whose only
     # section is the generated one (that is where stream, size, address and base_structs come from)
-    sec = DebugSectionDescriptor(stream=io.BytesIO(data), name='.eh_frame' if eh else '.debug_frame',
+    sec = DebugSectionDescriptor(stream=_open(S, data, skind), name='.eh_frame' if eh else '.debug_frame',
                                  global_offset=0, size=len(data), address=addr)
     none = dict.fromkeys(_NO_SECTIONS)
     none['eh_frame_sec' if eh else 'debug_frame_sec'] = sec
@@ -614,14 +667,14 @@ _NO_SECTIONS = ['debug_info_sec', 'debug_aranges_sec', 'debug_abbrev_sec', 'debu
                 'debug_loclists_sec', 'debug_rnglists_sec', 'debug_sup_sec', 'gnu_debugaltlink_sec', 'debug_types_sec']
 
 
-def impl_dwarfinfo(data_d, data_e, sd, se, name_d, name_e, calls):
+def impl_dwarfinfo(data_d, data_e, sd, se, name_d, name_e, calls, S=None, skinds=('bytesio', 'bytesio')):
     """ONE DWARFInfo with both call frame sections; -> [entries result per call]"""
     from elftools.dwarf.dwarfinfo import DWARFInfo, DwarfConfig, DebugSectionDescriptor
     nm = lambda n: None if n == 'none' else n.decode()
     secs = dict.fromkeys(_NO_SECTIONS)
-    secs['debug_frame_sec'] = DebugSectionDescriptor(stream=io.BytesIO(data_d), name=nm(name_d), global_offset=0,
+    secs['debug_frame_sec'] = DebugSectionDescriptor(stream=_open(S, data_d, skinds[0]), name=nm(name_d), global_offset=0,
                                                      size=len(data_d), address=sd[3])
-    secs['eh_frame_sec'] = DebugSectionDescriptor(stream=io.BytesIO(data_e), name=nm(name_e), global_offset=0,
+    secs['eh_frame_sec'] = DebugSectionDescriptor(stream=_open(S, data_e, skinds[1]), name=nm(name_e), global_offset=0,
                                                   size=len(data_e), address=se[3])
     di = DWARFInfo(config=DwarfConfig(little_endian=bool(sd[1]), machine_arch='x64', default_address_size=sd[2]), **secs)
     out = []
@@ -661,11 +714,11 @@ def impl_table(caf, daf, raw_cie, loc, raw_fde):
     return _safe(lambda: _decoded(fde.get_decoded()))
 
 
-def impl_instrs(data, le, asize):
+def impl_instrs(data, le, asize, S=None, skind='bytesio'):
     from elftools.dwarf.callframe import CallFrameInfo
     from elftools.dwarf.structs import DWARFStructs
     st = DWARFStructs(little_endian=bool(le), dwarf_format=32, address_size=asize)
-    stream = io.BytesIO(data)
+    stream = _open(S, data, skind)
     cfi = CallFrameInfo(stream, len(data), 0, st)
     r = _safe(lambda: cfi._parse_instructions(st, 0, len(data)))
     if r and r[0] == 'err':
@@ -703,7 +756,7 @@ def _diff_kind(impl, spec):
 
 def _entries_key(sec, impl):
     """a stable name for the class of section an entry mismatch was seen on"""
-    eh, le, asize, addr, entries = sec
+    eh, le, asize, addr, entries = sec[:5]
     feats = []
     if any(e[0] != 'zero' and e[1] for e in entries):
         feats.append('dwarf64')
@@ -735,17 +788,33 @@ def _damage(data, how, seed):
 
 # ------------------------------------------------------------------ evaluate
 def evaluate(ctx, cases):
+    from tools.lib.streams import Streams
+    S = Streams(prefix='pv-c06-streams-')
+    try:
+        _evaluate(ctx, cases, S)
+    finally:
+        S.close()
+
+
+def _sec5(a):
+    """(section fields, stream kind) of an abstract section with or without the trailing stream kind"""
+    return a[:5], (a[5] if len(a) > 5 else 'bytesio')
+
+
+def _evaluate(ctx, cases, S):
     drv = ctx.driver
     reqs = []
     for kind, a in cases:
         if kind in ('section', 'damaged'):
-            reqs.append(['section', a if kind == 'section' else a[0]])
-        elif kind == 'instrs':
+            reqs.append(['section', (a if kind == 'section' else a[0])[:5]])
+        elif kind in ('instrs', 'vendor-instrs'):
             reqs.append(['instrs', a[0], a[1], a[2]])
+        elif kind == 'vendor-table':
+            reqs.append(['table'] + list(a))
         elif kind == 'table':
             reqs.append(['table'] + list(a))
         elif kind == 'dwarfinfo':
-            reqs.append(['dwarfinfo'] + list(a))
+            reqs.append(['dwarfinfo', a[0][:5], a[1][:5], a[2], a[3], a[4]])
         else:
             raise ValueError(kind)
     answers = drv.batch(reqs)
@@ -762,8 +831,11 @@ def evaluate(ctx, cases):
     for i, ((kind, a), ans) in enumerate(zip(cases, answers)):
         if kind == 'section':
             data, wf, m_entries, s_entries, m_tables, s_tables, domains = ans
-            eh, le, asize, addr, entries = a
-            i_entries, i_tables = impl_section(data, eh, le, asize, addr)
+            (eh, le, asize, addr, entries), skind = _sec5(a)
+            i_entries, i_tables = impl_section(data, eh, le, asize, addr, S, skind)
+            ctx.bump('stream_kind', skind)
+            if (i + 1) % 200 == 0:
+                S.drop_files()
             n = len(entries)
             m_tables = [_canon_tres(t) for t in m_tables]
             # per entry: the spec's table where the standard defines one
@@ -802,8 +874,11 @@ def evaluate(ctx, cases):
                        in_domain=bool(wf), nontrivial=n >= 2, key=key)
         elif kind == 'dwarfinfo':
             data_d, data_e, wf, m_calls, s_calls = ans
-            sd, se, name_d, name_e, calls = a
-            impl = impl_dwarfinfo(data_d, data_e, sd, se, name_d, name_e, calls)
+            sd, se, name_d, name_e, calls = a[:5]
+            skinds = a[5] if len(a) > 5 else ['bytesio', 'bytesio']
+            impl = impl_dwarfinfo(data_d, data_e, sd, se, name_d, name_e, calls, S, skinds)
+            ctx.bump('stream_kind', skinds[0])
+            ctx.bump('stream_kind', skinds[1])
             key = None
             if impl != s_calls:
                 same = (name_d == name_e)
@@ -817,18 +892,51 @@ def evaluate(ctx, cases):
             sec = a[0]
             data = dmg_data[i]
             m_entries, m_tables = dmg_ans[i]
-            i_entries, i_tables = impl_section(data, sec[0], sec[1], sec[2], sec[3])
+            i_entries, i_tables = impl_section(data, sec[0], sec[1], sec[2], sec[3], S, _sec5(sec)[1])
             m_tables = [_canon_tres(t) for t in m_tables]
             ctx.bump('kind', 'damaged-' + a[1])
             ctx.record(kind, a, impl=[i_entries, i_tables], spec=[m_entries, m_tables], model=[m_entries, m_tables],
                        in_domain=False, nontrivial=True)
         elif kind == 'instrs':
             data, wf, m_split, s_split = ans
-            impl = impl_instrs(data, a[0], a[1])
+            skind = a[3] if len(a) > 3 else 'bytesio'
+            impl = impl_instrs(data, a[0], a[1], S, skind)
+            ctx.bump('stream_kind', skind)
             ctx.bump('kind', 'instrs')
             ctx.bump('instr_list_len', min(len(a[2]) // 10 * 10, 60))
             ctx.record(kind, a, impl=impl, spec=s_split, model=m_split, in_domain=bool(wf),
                        nontrivial=len(a[2]) >= 2, key='instrs/split')
+        elif kind == 'vendor-instrs':
+            data, wf, m_split, s_split = ans
+            skind = a[3] if len(a) > 3 else 'bytesio'
+            impl = impl_instrs(data, a[0], a[1], S, skind)
+            sup = _vendor_supported(a[2])
+            ctx.bump('kind', 'vendor-instrs' + ('' if sup else '-unsupported'))
+            ctx.bump('stream_kind', skind)
+            for ins in a[2]:
+                ctx.bump('opcode', ins[0])
+            if sup:
+                # the live module names these opcodes: it must split them as the registries define them
+                # (the hand model does not know them: no model answer)
+                ctx.record(kind, a, impl=impl, spec=s_split, model=None, in_domain=bool(wf), nontrivial=True,
+                           key='vendor/split')
+            else:
+                # not supported: outside the property; the model refuses them as the code does (drift only)
+                ctx.record(kind, a, impl=impl, spec=m_split, model=m_split, in_domain=False, nontrivial=True)
+        elif kind == 'vendor-table':
+            m_t, s_t, dom, raw_cie, raw_fde = ans
+            impl = impl_table(a[0], a[1], raw_cie, a[3], raw_fde)
+            sup = _vendor_supported(a[4])
+            ctx.bump('kind', 'vendor-table' + ('' if sup else '-unsupported'))
+            if sup and s_t != 'none':
+                spec = ['ok', _sort_table(s_t[1])]
+                key = None
+                if impl != spec:
+                    key = 'vendor/table' if dom else KNOWN_DROP
+                ctx.record(kind, a, impl=impl, spec=spec, model=None, in_domain=True, nontrivial=True, key=key)
+            else:
+                m_t = _canon_tres(m_t)
+                ctx.record(kind, a, impl=impl, spec=m_t, model=m_t, in_domain=False, nontrivial=True)
         elif kind == 'table':
             m_t, s_t, dom, raw_cie, raw_fde = ans
             caf, daf = a[0], a[1]
